@@ -211,8 +211,8 @@ impl Prop for C09 {
     }
     fn runs(&self, tier: Tier) -> u64 {
         match tier {
-            Tier::Quick => 5_000,
-            Tier::Thorough => 120_000,
+            Tier::Quick => 12_000,
+            Tier::Thorough => 300_000,
         }
     }
     fn generate(&self, i: u64, r: &mut Rng, tier: Tier) -> Scenario {
